@@ -30,6 +30,16 @@ Definition band_mv_spec (row_major : bool) (L U dim : Z) (mem : Z -> T) (left_pt
   let e := if row_major then BandR else BandC in
   zsum dim (fun j => if stored e L U i j then omul O (mem (left_ptr + index e L U i j left_offset)) (mem (x0 + j * incx)) else o0 O).
 
+(* ---- band matrix x dense matrix (matmul_band for a rank-2 right operand): one ?gbmv per column c of the right operand, with
+   the generated start pointers and increments; element (i, c) of the result is stored at band_mm_y_start + i * band_mm_incy *)
+Definition adept_band_mm (row_major : bool) (L U dim : Z) (mem : Z -> T) (left_ptr left_offset x0 roff0 roff1 : Z) (i c : Z) : T :=
+  adept_band_mv row_major L U dim mem left_ptr left_offset (band_mm_x_start x0 c roff0 roff1) (band_mm_incx roff0 roff1) i.
+Definition band_mm_result_addr (y0 aoff0 aoff1 i c : Z) : Z := band_mm_y_start y0 c aoff0 aoff1 + i * band_mm_incy aoff0 aoff1.
+(* the defining sum: sum over the stored band of row i of  band(i,j) * right(j,c)  with right(j,c) at x0 + j*roff0 + c*roff1 *)
+Definition band_mm_spec (row_major : bool) (L U dim : Z) (mem : Z -> T) (left_ptr left_offset x0 roff0 roff1 : Z) (i c : Z) : T :=
+  let e := if row_major then BandR else BandC in
+  zsum dim (fun j => if stored e L U i j then omul O (mem (left_ptr + index e L U i j left_offset)) (mem (x0 + j * roff0 + c * roff1)) else o0 O).
+
 (* ---- symmetric matrix x vector: ?symv reads only the triangle [upper] of the column-major n x n matrix at a0 (leading
    dimension lda) and mirrors it; y(i) = sum_j A(i,j) x(j) *)
 Definition symv_read (upper : bool) (mem : Z -> T) (a0 lda i j : Z) : T :=
